@@ -173,19 +173,19 @@ Definition cs2 (pc : bool) (d1 : bool) (o : aop) : option ovl :=
   | AHome => Some [(QCL, V (KCu true) Same)]                         (* :1649 *)
   | ASliced => Some [(QCL, cv Same)]                                 (* :1277 *)
   | ASlicedS => Some [(QCL, cv Same)]                                (* :1335-1339 sliced(f,l).strided(s) on a prvalue *)
-  | AStrided => Some [(QCL, RHard); (QR, cv Same); (QL, cv Same)]    (* :1331-1333; const& converts to basic_const_array: does not compile *)
-  | ATaked => Some [(QCL, RHard)]                                    (* :1212 *)
-  | ADropped => Some [(QCL, RHard); (QR, cv Same); (QL, cv Same)]    (* :1249-1251 *)
+  | AStrided => Some [(QCL, cv Same); (QR, cv Same); (QL, cv Same)]  (* :1331-1333; const& -> const_subarray since the receiver fix *)
+  | ATaked => Some [(QCL, cv Same)]                                  (* :1212 *)
+  | ADropped => Some [(QCL, cv Same); (QR, cv Same); (QL, cv Same)]  (* :1249-1251 *)
   | ARotated | AUnrotated | ATransposed => Some [(QCL, cv Same)]     (* :1483, :1511-1512 *)
   | ATilde => Some [(QCL, cv Same)]                                  (* :1492 friend operator~(const_subarray const&) *)
-  | AReversed => Some [(QCL, RHard); (QL, cv Same); (QR, cv Same)]   (* :1468-1470 *)
+  | AReversed => Some [(QCL, cv Same); (QL, cv Same); (QR, cv Same)] (* :1468-1470 *)
   | ADiagonal => Some [(QCL, cv Dec)]                                (* :1398 *)
   | APartitioned | AChunked | AHalved => Some [(QCL, cv Inc)]        (* :1431, :1444, :1223 *)
   | AFlatted => Some [(QCL, cv Dec)]                                 (* :1356 *)
   | AReindexed => Some [(QCL, cv Same); (QL, cv Same); (QR, cv Same)](* :1182-1196 *)
-  | ABlocked => Some [(QCL, RHard); (QL, cv Same)]                   (* :1279-1280 *)
+  | ABlocked => Some [(QCL, cv Same); (QL, cv Same)]                 (* :1279-1280 *)
   | ARange => Some [(QCL, cv Same)]                                  (* :1343 *)
-  | AStenciled => Some [(QL, cv Same); (QR, cv Same); (QCL, RHard)]  (* :1284, :1291, :1298 *)
+  | AStenciled => Some [(QL, cv Same); (QR, cv Same); (QCL, cv Same)](* :1284, :1291, :1298 *)
   | ABroadcasted => Some [(QCL, V (KCSub true) Inc)]                 (* :1368 element_const_ptr *)
   | AAsConst => Some [(QC, V (KSub true) Same)]                      (* :1808 *)
   | ABase => Some [(QC, P true)]                                     (* :236 base() const -> element_const_ptr *)
@@ -221,10 +221,10 @@ Definition cs1 (pc : bool) (o : aop) : option ovl :=
   | ADiagonal => Some [(QC, RDel)]                                   (* :2799 deleted *)
   | AReversed => Some [(QCL, V (KCSub true) Same); (QL, cv Same); (QR, cv Same)]  (* :3059-3061 *)
   | APartitioned | AChunked | AHalved => Some [(QCL, cv Inc)]        (* :3026, :3035, :3014 *)
-  | AReindexed => Some [(QR, cv Same); (QL, cv Same)]                (* :2883-2884 *)
-  | ABlocked => Some [(QL, cv Same)]                                 (* :2964 *)
+  | AReindexed => Some [(QR, cv Same); (QL, cv Same); (QCL, V (KCSub true) Same)]   (* :2883-2893; const& -> basic_const_array *)
+  | ABlocked => Some [(QL, cv Same); (QR, cv Same); (QCL, V (KCSub true) Same)]     (* :2969-2977 *)
   | ARange => Some [(QCL, V (KCSub true) Same)]                      (* :2982 -> sliced() on a const *this *)
-  | AStenciled => Some [(QN, cv Same)]                               (* :2967 *)
+  | AStenciled => Some [(QL, cv Same); (QR, cv Same); (QCL, V (KCSub true) Same)]   (* :2978-2986 *)
   | ABroadcasted => Some [(QCL, cv Inc)]                             (* :2824 const_subarray<T, 2, ElementPtr> *)
   | ABase => Some [(QC, P true)]                                     (* :236 *)
   | AOrigin => Some [(QCL, P true)]                                  (* :255 *)
